@@ -118,8 +118,19 @@ static int write_start3(const char* out, unsigned n, const char* rawfile) {
     return 0;
 }
 
+// /PhaseSpace/data [1][1][n][n] stored as 64-bit floats (what h5py writes by default, or a double-precision build of the program)
+static int write_start64(const char* out, unsigned n, const char* rawfile) {
+    std::vector<float> v((size_t)n * n); FILE* f = fopen(rawfile, "rb"); if (!f || fread(v.data(), 4, v.size(), f) != v.size()) { fprintf(stderr, "cannot read %s\n", rawfile); return 2; } fclose(f);
+    std::vector<double> w(v.begin(), v.end());
+    H5::H5File file(out, H5F_ACC_TRUNC); file.createGroup("/PhaseSpace");
+    hsize_t dims[4] = {1, 1, n, n}; H5::DataSpace sp(4, dims);
+    file.createDataSet("/PhaseSpace/data", H5::PredType::IEEE_F64LE, sp).write(w.data(), H5::PredType::NATIVE_DOUBLE);
+    return 0;
+}
+
 int main(int c, char** v) {
     if (c >= 5 && std::string(v[1]) == "--write") return write_start(v[2], (unsigned)atoi(v[3]), v[4]);
+    if (c >= 5 && std::string(v[1]) == "--write64") return write_start64(v[2], (unsigned)atoi(v[3]), v[4]);
     if (c >= 5 && std::string(v[1]) == "--write3") return write_start3(v[2], (unsigned)atoi(v[3]), v[4]);
     if (c >= 5 && std::string(v[1]) == "--write-rank") return write_rank(v[2], (unsigned)atoi(v[3]), atoi(v[4]));
     if (c >= 4 && std::string(v[1]) == "--write-empty") return write_empty(v[2], (unsigned)atoi(v[3]));
